@@ -462,8 +462,13 @@ TX_RULE = ("sequential TX histories (tx.Query on statements cached on the DB or 
 CACHE_RULE = ("sequential histories over <=3 Statements x <=3 DBs x 3 argument shapes x 4 contexts: run, open iterator, drop Query, "
               "finish, drop Statement/DB, cancel, prepare failure, forced garbage collection with finalizer drain (real runtime.GC); "
               "observables per op: driver prepares/executions with statement identity and context marker, set of closed driver "
-              "statements, cache entry counts (hook); plus concurrent stress runs (8 goroutines, shared Statements/DBs, GC) checked "
-              "by oracles on the driver log; non-trivial iff distinct and more than 5 ops")
+              "statements, cache entry counts (hook); a third of the histories put all sqlair.DB values on one *sql.DB; the "
+              "statements have two slice inputs whose shapes differ in SQL but not in the number of parameters; plus, checked by "
+              "oracles on the driver log: concurrent stress runs (8 goroutines, shared Statements, DBs created concurrently, GC, "
+              "cancellable contexts, injected driver failures: the executed SQL was generated for the call's own arguments), held "
+              "Queries run again after eviction / under their own context, a context ending inside the driver's Prepare, 4,500 "
+              "(thorough: 70,000) Statements alive on one DB, NewDB from 16 goroutines at once; non-trivial iff distinct and more "
+              "than 5 ops")
 
 
 def proj_cache_events(line):
@@ -500,9 +505,13 @@ def proj_iter_c15(case, line):
 
 
 BIND_RULE = ("(statement, sample list, argument list) triples from the seeded typed statement generator over the type zoo "
-             "(all expression forms, value/pointer/slice/slice-of-pointer arguments, zero patterns, deliberate mistakes); "
-             "type shapes and argument values are dumped by the harness's own reflection walk; a case is non-trivial iff "
-             "distinct and the statement parses")
+             "(all expression forms, value/pointer/slice/slice-of-pointer arguments, zero patterns, deliberate mistakes, layout "
+             "variation of the pass-through text, literals with quotes / comments / backslashes / % / the statement's own inputs, "
+             "slices of 63..4097 elements (thorough: up to 65537), 62..257 output columns); in a third of the cases the Statement "
+             "has already been run on the same DB with arguments of another shape (other omitempty pattern with as many or other "
+             "many columns, other lengths, one struct <-> a slice of it, empty) and the SQL is read from the driver statement "
+             "that is executed; type shapes and argument values are dumped by the harness's own reflection walk; a case is "
+             "non-trivial iff distinct and the statement parses")
 
 
 def run_parse(ctx, pid, run, idx, replay, BUILD, ROOT):
@@ -561,8 +570,12 @@ def run_parse(ctx, pid, run, idx, replay, BUILD, ROOT):
 SCAN_RULE = ("statements with output expressions (all output forms x zoo types, optional inputs) run with Get on the fake driver; "
              "the driver answers with one row whose columns are the generated aliases in a seeded permutation with foreign columns "
              "interleaved, an alias missing / twice / out of range / in an unusual spelling, fewer columns, NULL cells; destinations "
-             "(pointer to struct, map, pointer to map; wrong forms) carry prior contents; observables: error class and the deep dump "
-             "of every destination afterwards; non-trivial iff distinct and the scan stage was reached")
+             "(pointer to struct, map, pointer to map; wrong forms) carry prior contents; a quarter of the cases run a held Query a "
+             "second time with another column arrangement, a fifth loop over two rows with Iter/Next/Get into the same destinations "
+             "(embedded pointers re-allocated between the rows), a third build other Queries with outputs in between; GetAll into "
+             "[]T / []*T / []M with prior elements and non-zero spare capacity; eight goroutines reading rows of their own into one "
+             "struct type; observables: error class and the deep dump of every destination afterwards; non-trivial iff distinct and "
+             "the scan stage was reached")
 
 
 def run_scan(ctx, pid, run, idx, replay, BUILD, ROOT):
@@ -642,8 +655,11 @@ def run_sqlite(ctx, pid, run, idx, replay, BUILD, ROOT):
 
 
 DETERM_RULE = ("generated (query, samples, arguments A, arguments B of the same types in another shape): A run 5 times on one Statement, "
-               "B in between, a separately prepared Statement, 8 goroutines preparing the same query / running A and B on the shared "
-               "Statement at once; observable: generated SQL and named argument values (byte-identical) or the error class")
+               "B in between, a separately prepared Statement, Queries built first and run later, rejections compared between a used "
+               "and a fresh Statement, 8 goroutines preparing the same query / running A and B on the shared Statement at once, six "
+               "goroutines binding slices of 300+ elements of different contents, Prepare of two different queries from 8 goroutines, "
+               "the first asterisk use of 48 generated 120-column struct types by 8 goroutines at once; observable: generated SQL and "
+               "named argument values (byte-identical) or the error class")
 
 
 def run_determ(ctx, pid, run, idx, replay, BUILD, ROOT):
